@@ -595,7 +595,7 @@ Fixpoint spoll_retained (g : cfg) (s : state) (sv : N) (l : list conn) : state *
   | k :: t =>
     if N.eqb (lenN (k_rbor k)) (MA g) then spoll_retained g s sv t else
     match k_rsub k with
-    | m :: q => (upd_conn s (k_cl k) sv (fun k => k_with_req k q (k_rbor k ++ [m]) (k_rcomp k)), S1Some (k_cl k) m)
+    | m :: q => (upd_conn s (k_cl k) sv (fun k' => k_with_req k' q (k_rbor k ++ [m]) (k_rcomp k')), S1Some (k_cl k) m)
     | [] =>
       let s := if nonempty (k_rbor k) then s else upd_conn s (k_cl k) sv (fun k => k_with_svw k VNone) in
       spoll_retained g s sv t
@@ -609,7 +609,7 @@ Fixpoint spoll_all (g : cfg) (s : state) (sv : N) (l : list conn) (active all_ex
     | [] => spoll_all g s sv t active all_exceed
     | m :: q =>
       if N.leb (MA g) (lenN (k_rbor k)) then spoll_all g s sv t true all_exceed else
-      (upd_conn s (k_cl k) sv (fun k => k_with_req k q (k_rbor k ++ [m]) (k_rcomp k)), S1Some (k_cl k) m)
+      (upd_conn s (k_cl k) sv (fun k' => k_with_req k' q (k_rbor k ++ [m]) (k_rcomp k')), S1Some (k_cl k) m)
     end
   end.
 Definition server_rcv1 (g : cfg) (s : state) (sv : N) (ord : list N) : state * srv1 :=
